@@ -125,6 +125,10 @@ func recoverFacts(fd *ast.FuncDecl) (recovers, repanicsOthers, assignsErr bool) 
 					len(x.Rhs) == 2 && exprString(x.Rhs[0]) == "nil" && strings.HasSuffix(exprString(x.Rhs[1]), ".err") {
 					sawAssign = true
 				}
+				if x.Tok == token.ASSIGN && len(x.Lhs) == 1 && exprString(x.Lhs[0]) == "err" &&
+					len(x.Rhs) == 1 && strings.HasSuffix(exprString(x.Rhs[0]), ".err") {
+					sawAssign = true
+				}
 			}
 			return true
 		})
@@ -210,6 +214,11 @@ func genLimits(repo string) (string, error) {
 	}
 	cs := funcOrMethod(fs, "compileScript")
 	recovers, repanics, assigns := recoverFacts(cs)
+	// (*Compiler).compileFile: the same conversion for a Compiler that is used directly
+	var fileRecovers, fileRepanics bool
+	if cf := funcOrMethod(fs, "compileFile"); cf != nil {
+		fileRecovers, fileRepanics, _ = recoverFacts(cf)
+	}
 
 	// maxVal per width (shared reader with Gen/Opcodes)
 	v2, err := readOpTables(filepath.Join(repo, "opcodes.go"), "OpNoOp", true)
@@ -258,7 +267,9 @@ func genLimits(repo string) (string, error) {
 	w("/-- … re-panics any other panic value (`panic(r)`) -/\n")
 	w("def compileScriptRepanicsOthers : Bool := %s\n", b2s(repanics))
 	w("/-- … and assigns `bc, err = nil, oe.err` -/\n")
-	w("def compileScriptReturnsOperandError : Bool := %s\n\n", b2s(assigns))
+	w("def compileScriptReturnsOperandError : Bool := %s\n", b2s(assigns))
+	w("/-- (*Compiler).compileFile (the `*parser.File` case of Compile) recovers `*operandError` as well and re-panics others -/\n")
+	w("def compileFileRecoversOperandError : Bool := %s\n\n", b2s(fileRecovers && fileRepanics))
 	w("end UgoVerif.Gen.Limits\n")
 	return sb.String(), nil
 }
